@@ -67,12 +67,14 @@ PROPS = {
     "C14": {"level": "exploration", "assumptions": PURE_ASSUME + ["HMAC-SHA256 is unforgeable; the run's secret never appears in a generated invalid credential unless the harness itself signs with it", "route discovery through the verif-only server.Routes hook + chi.Walk"],
             "parts": [rp("httpauth", "TestC14", (3000, 2), (60000, 8)),
                       rp("httpauth", "TestC14Concurrent", (40, 2), (1500, 8), race=True),
+                      rp("procs", "TestC14Binary", (3, 1), (40, 4), helpers=["cmd/vhelper", "pkg:github.com/Flowpack/prunner/cmd/prunner"]),
                       {"pkg": "httpauth", "fuzz": "FuzzC14Credential", "thorough": {"fuzztime": "180s", "wall": 900}}]},
     "C15": {"level": "exploration", "assumptions": SIM_ASSUME, "parts": [sim("TestC15", q=(250, 4), t=(3000, 16))]},
     "C16": {"level": "exploration", "assumptions": SIM_ASSUME + ["the binary part observes a reload through jobs scheduled over HTTP; a reload request (SIGUSR1 / poll) is given 3 s to take effect"],
             "parts": [sim("TestC16"), rp("procs", "TestC16Binary", (3, 1), (40, 4), helpers=["cmd/vhelper", "pkg:github.com/Flowpack/prunner/cmd/prunner"])]},
     "C17": {"level": "exploration", "assumptions": PURE_ASSUME,
             "parts": [rp("inputs", "TestC17Load", (300, 2), (5000, 8)), rp("inputs", "TestC17Corrupt", (600, 2), (10000, 8)), rp("inputs", "TestC17Equals", (5000, 2), (100000, 8)),
+                      rp("procs", "TestC17Binary", (3, 1), (40, 4), helpers=["cmd/vhelper", "pkg:github.com/Flowpack/prunner/cmd/prunner"]),
                       {"pkg": "inputs", "fuzz": "FuzzC17Load", "thorough": {"fuzztime": "180s", "wall": 900}}]},
     "C18": {"level": "exploration", "assumptions": ["the harness wires the task runner exactly as app.appAction does (pipeline env as runner env, real FileOutputStore); a change to that closure in app/app.go is not seen", "real processes via cmd/vhelper; the environment of the test process stands for the prunner process"],
             "parts": [rp("procs", "TestC18", (40, 2), (1500, 8), helpers=["cmd/vhelper"])]},
